@@ -339,19 +339,27 @@ def run_filter(kind, case):
     if kind == 'fb':
         mon = LoopMonitor(filters.run_feedback_filter, fb_state, budget)
         call = lambda: filters.run_feedback_filter(pva0, *SDS, inc, **kwargs)  # noqa
+        # the earlier call of a 'rerun' case processes a SHORTER span (the first interval only) with the same
+        # measurement and model objects: whatever it did to them must not reach the observed call on the full span
+        call_short = lambda: filters.run_feedback_filter(pva0, *SDS, inc.iloc[:1], **kwargs)  # noqa
     else:
         mon = LoopMonitor(filters.run_feedforward_filter, ff_state, budget)
         if case.get('models') == 'sm' or case.get('with_inc'):
             kwargs['increments'] = inc
         call = lambda: filters.run_feedforward_filter(traj, traj, *SDS, **kwargs)  # noqa
+        kw_short = dict(kwargs)
+        if 'increments' in kw_short:
+            kw_short['increments'] = inc.iloc[:1]
+        call_short = lambda: filters.run_feedforward_filter(traj.iloc[:2], traj.iloc[:2], *SDS, **kw_short)  # noqa
     res = None
     err = None
     if case.get('rerun'):
         # the observed run is the SECOND call with the same measurement and model objects
-        try:
-            call()
-        except Exception:  # noqa  (the first call's own failures are reported by the plain schedule)
-            pass
+        for first_call in (call_short, call):
+            try:
+                first_call()
+            except Exception:  # noqa  (the first call's own failures are reported by the plain schedule)
+                pass
         del log[:]
     with mon:
         try:
